@@ -211,11 +211,13 @@ def value(vk: int, v: int, flag: bool, t1: int) -> str:
     lg = []
     w = World(plugin_list=[P["RecMetricProcessor"](lg)])
     # a second definition after it: a value that cannot be converted costs only its own value, not the later metrics
-    _install(w, [_pb_metric("m1", TYPES[t1], VEXPR[vk], [], True), _pb_metric("m2", "GAUGE", "v", [], True)])
+    _install(w, [_pb_metric("m1", TYPES[t1], VEXPR[vk], [("k", 1), ("n", 2)], True), _pb_metric("m2", "GAUGE", "v", [], True)])
     w.event(FakeFrame("/app/f.py", "f", 7, {"name": "bob", "v": v, "flag": flag, "bad": BadFloat()}), "line", None)
     world.reached()
     if len(lg) != 2 or lg[0][0] != METHOD[TYPES[t1]] or lg[1][:2] != ("gauge", "m2") or lg[1][6] != v:
         return "C17:value:call-missing"
+    if lg[0][2] != {"k": "sv_k", "n": "bob"}:
+        return "C17:value:labels-lost-or-altered(value expression %s)" % ("failing" if vk in (4, 6) else "present")
     got = lg[0][6]
     if vk == 1:
         want = float(v)
